@@ -279,7 +279,7 @@ def _table(cases, what, note):
     return {"found": False, "note": f"{len(cases)} {note}"}
 
 
-C10_CASES = [("2^3^2", "512"), ("-2^2", "-4"), ("2^-2", "0.25"), ("6 / 2 3", "1"), ("12 per 2 * 3", "18"), ("12 / 2 per 3", "18"), ("2 * 3 per 6", "1"),
+C10_CASES = [("2^-2^2", "0.0625"), ("2^3^2", "512"), ("-2^2", "-4"), ("2^-2", "0.25"), ("6 / 2 3", "1"), ("12 per 2 * 3", "18"), ("12 / 2 per 3", "18"), ("2 * 3 per 6", "1"),
              ("10 - 3 - 2", "5"), ("2 + 3 * 4", "14"), ("!true || true", "true"), ("true || false && false", "true"),
              ("if true then 16 else 81 |> sqrt", "4"), ("if 1 < 2; then 10 else 20", "ERR"), ("if 1 < 2 then 10; else 20", "ERR"), ("if true then 16 |> sqrt else 81", "ERR"),
              ("3!^2", "36"), ("2^3!", "64"), ("2²!", "24"), ("-3!", "-6"), ("2 3^2", "18"), ("if true then 1 else 2 + 1", "1"), ("1 + 2 < 4 && true", "true"),
@@ -327,7 +327,7 @@ def w_c17(seed):
 
 
 def w_c07(seed):
-    seq = [("use prelude", None), ("2 + 3", "5"), ("ans * 2", "10"), ("7\n_ + 1", "8"), ("ans", "8"), ("let vx_x = 4\nvx_x + ans", "12"), ("ans + _", "24")]
+    seq = [("use prelude", None), ("2 + 3", "5"), ("ans * 2", "10"), ("7\n_ + 1", "8"), ("ans", "8"), ("let vx_x = 4\nvx_x + ans", "12"), ("ans + _", "24"), ("5 km / 2 m", "2500"), ("ans * 2 m", "5 km"), ("5 km / 2 m\nans * 2 m", "5 km")]
     return _sequence(seq, "last result", "inputs using `ans` / `_` give the value of the most recent expression statement, one at a time or batched")
 
 
